@@ -374,6 +374,96 @@ class Extracted:
         self.clauses = []
 
 
+_NOT_CALLS = set("if while for loop match return let fn unsafe Some None Ok Err Box Vec assert debug_assert panic vec format write drop".split())
+
+
+def _split_args(text):
+    out, depth, cur = [], 0, ""
+    for ch in text:
+        if ch in "([{<" and not (ch == "<"):
+            depth += 1
+        elif ch in ")]}":
+            depth -= 1
+        if ch == "," and depth == 0:
+            out.append(cur.strip()); cur = ""
+        else:
+            cur += ch
+    if cur.strip():
+        out.append(cur.strip())
+    return out
+
+
+def _inline_helpers(spec, src, m, item, known):
+    """D36: a call, in the function under contract, of a small helper function of the same file that no contract, stub or rule knows
+    is replaced by the helper's body (`{ let param = arg; ..; BODY }`) - the definition of a call - provided the helper is
+    straight-line: no loop, no `return`, no `?`, no generics, no nested item.  Typical origin: a maintainer moved two
+    duplicated lines into a private function.  Returns (src, n_inlined)."""
+    n_inl = 0
+    for _round in range(3):
+        body_lo, body_hi = item.body_open + 1, item.body_close
+        nested = [(n.attr_start, n.body_close) for n in rs.nested_fns(src, m, item.body_open, item.body_close)]
+        cands = []
+        for x in re.finditer(r"(?<![\w.:!])((?:self\s*\.\s*|Self::)?)([a-z_][a-z0-9_]*)\s*\(", m[body_lo:body_hi]):
+            name = x.group(2)
+            if name in _NOT_CALLS or name in known or m[body_lo + x.start() - 1:body_lo + x.start()] == ".":
+                continue
+            if any(a <= body_lo + x.start() <= b for a, b in nested):
+                continue          # nested fn items have their own contract or stub
+            call = src[body_lo + x.start():body_lo + x.end()]
+            if any(getattr(r, "regex", None) is not None and r.regex.search(call) for r in spec.rules):
+                continue
+            cands.append((body_lo + x.start(), body_lo + x.end() - 1, x.group(1).strip(), name))
+        done = False
+        for cs, po, recv, name in reversed(cands):
+            helper = None
+            try:
+                if recv:
+                    if len(spec.path) >= 2:
+                        helper = rs.find_fn(src, list(spec.path[:-1]) + [name], m)
+                else:
+                    helper = rs.find_fn(src, [name], m)
+            except rs.ScanError:
+                helper = None
+            if helper is None or helper.body_open == item.body_open:
+                continue
+            hb = m[helper.body_open + 1:helper.body_close]
+            sig = m[helper.fn_kw:helper.body_open]
+            if re.search(r"\b(for|while|loop|return|fn|async)\b", hb) or "?" in hb or "<" in m[helper.fn_kw:helper.params_open]:
+                continue
+            params = _split_args(src[helper.params_open + 1:helper.params_close])
+            pc = rs.match_close(m, po)
+            args = _split_args(src[po + 1:pc])
+            lets = []
+            has_self = bool(params) and re.match(r"&?\s*(mut\s+)?self$", params[0].replace(" ", "") .replace("&mut", "&mut ")) is not None or (bool(params) and params[0].strip() in ("self", "&self", "&mut self"))
+            if has_self:
+                if recv != "self.":
+                    continue
+                params = params[1:]
+            elif recv == "self.":
+                continue
+            if len(params) != len(args):
+                continue
+            ok = True
+            for prm, arg in zip(params, args):
+                pm_ = re.match(r"(mut\s+)?([a-z_][a-z0-9_]*)\s*:\s*(.+)$", prm, re.S)
+                if not pm_:
+                    ok = False
+                    break
+                lets.append("let %s%s: %s = %s;" % (pm_.group(1) or "", pm_.group(2), pm_.group(3).strip(), arg))
+            if not ok:
+                continue
+            block = "{ /* D36: body of `%s` inlined */ %s %s }" % (name, " ".join(lets), src[helper.body_open + 1:helper.body_close].strip())
+            src = src[:cs] + block + src[pc + 1:]
+            m = rs.mask(src)
+            item = rs.find_fn(src, spec.path, m)
+            n_inl += 1
+            done = True
+            break
+        if not done:
+            break
+    return src, m, item, n_inl
+
+
 def build_fn(repo, spec, src_cache, base_indent="    "):
     """Return Extracted for spec (an Fn)."""
     path = os.path.join(repo, spec.file)
@@ -398,8 +488,13 @@ def build_fn(repo, spec, src_cache, base_indent="    "):
             item = rs.find_fn(src, spec.path, m)
         except rs.ScanError as e:
             raise GenError("anchor lost: %s" % e)
+    n_inlined = 0
+    if not prefix and getattr(spec, "_known", None) is not None:
+        src, m, item, n_inlined = _inline_helpers(spec, src, m, item, spec._known)
     edits = []
     rule_counts = {}
+    if n_inlined:
+        rule_counts["D36"] = n_inlined
     clauses = []
     _fn_edits(spec, item, src, m, edits, rule_counts, clauses, top=True)
     if prefix:
@@ -926,7 +1021,20 @@ def build_unit(repo, unit, verif_dir):
                 porg.append({"kind": "prelude", "file": pf, "line": i + 1})
         parts.append((ptxt, porg))
     g.functions = []
+    prelude_all = "".join(t for t, _ in parts)
+    known = set(re.findall(r"\bfn\s+([A-Za-z_][A-Za-z0-9_]*)", prelude_all)) | set(re.findall(r"\bfn\s+([A-Za-z_][A-Za-z0-9_]*)", unit.post or ""))
+    for _h, _fns in unit.groups:
+        for _f in _fns:
+            known.add(_f.name)
+            if _f.rename:
+                known.add(_f.rename)
+            for _r in _f.rules:
+                rn = getattr(_r, "rename", None)
+                if rn:
+                    known.add(rn)
     for header, fns in unit.groups:
+        for fn in fns:
+            fn._known = known
         if header:
             parts.append((header + " {\n", [{"kind": "wrapper"}]))
         for fn in fns:
